@@ -98,7 +98,8 @@ def gen_case(seed, idx):
         clash = None
     return {"idx": idx, "world": w, "split": k, "zsplit": zsplit, "clash": clash, "own": own, "history": hist,
             "b_refs": rng.random() < 0.8, "url_trailing_slash": rng.random() < 0.5,
-            "local_abs": rng.random() < 0.3, "b_cwd": rng.choice(["proj", "proj", "parent"])}
+            "local_abs": rng.random() < 0.3, "b_cwd": rng.choice(["proj", "proj", "parent"]),
+            "label": rng.choice(["a", "a", "remote", "mpi", "omp_lib", "iso_c_binding", "a_docs"])}
 
 
 def a_exports(case):
@@ -327,6 +328,11 @@ def check_i2(case, root, via, bdoc):
         for url, text in links:
             t = into_a(url, p, pub, via)
             if t is None:
+                if not re.match(r"^[a-z][a-z0-9+.-]*:", url, re.I) and not url.startswith("#") and url.split("#")[0]:
+                    tgt0 = url.split("#")[0].split("?")[0]
+                    ap = os.path.normpath(os.path.join(os.path.dirname(p), tgt0)) if not os.path.isabs(tgt0) else os.path.normpath(tgt0)
+                    if not (ap == bdoc or ap.startswith(bdoc + "/")) and not os.path.exists(ap):
+                        findings.append(("I2/dangling-elsewhere/%s" % via, "%s: link '%s' -> %s leaves B's documentation and leads nowhere" % (rel, text, url)))
                 continue
             n_links += 1
             tgt, _, frag = t.partition("#")
@@ -383,7 +389,14 @@ def check_i3(case, root):
         if j is None:
             continue
         ex = exports[m["name"].lower()]
+        a_own = {x["name"].lower() for x in a_mods}
         for cls, key in (("procs", "pub_procs"), ("types", "pub_types"), ("vars", "pub_vars"), ("absints", "pub_absints")):
+            for k2, v2 in (j.get(key) or {}).items():
+                o = ex[cls].get(k2.lower())
+                if o is not None and o[0] not in a_own and v2:
+                    findings.append(("I3/foreign-entity-exported/%s" % key,
+                                     "modules.json: module %s exports '%s', an entity of %s (another project), as if it were A's own: %s"
+                                     % (m["name"], k2, o[0], json.dumps(v2)[:160])))
             have = sorted(k.lower() for k, v in (j.get(key) or {}).items())
             wantn = sorted(ex[cls])
             if have != wantn:
@@ -560,10 +573,10 @@ def evaluate(case, seed, workdir, history=None):
             if op == "buildB":
                 if via == "local":
                     # the local path as a user would write it: relative to the project file, or absolute
-                    o["external"] = "a = " + (os.path.join(root, "pub") if case.get("local_abs") else "../pub")
+                    o["external"] = case.get("label", "a") + " = " + (os.path.join(root, "pub") if case.get("local_abs") else "../pub")
                 else:
                     # the URL as a user would write it, with or without the trailing slash
-                    o["external"] = "a = " + (URL if case.get("url_trailing_slash", True) else URL.rstrip("/"))
+                    o["external"] = case.get("label", "a") + " = " + (URL if case.get("url_trailing_slash", True) else URL.rstrip("/"))
                     net = {"routes": [{"prefix": URL, "dir": os.path.join(root, "pub")}]}
                     if armed:
                         net["fault"] = {"kind": armed}
